@@ -23,5 +23,9 @@ def shapes(tier, seed):
     for s in instr_shapes(tier, seed, ['C12'], only=('t5', 't6', 't1:arg12', 't4:0', 't7:1')):
         if 'rejected' in s.params.get('expect', []) and (tier != 'quick' or len(muted) < 14):
             muted.append(InstrShape('muted:' + s.sid, muted=True, **{k: v for k, v in s.params.items() if k not in ('files',)}))
-    return muted + instr_shapes(tier, seed, ['C12'], only=('t5', 't6', 't4', 't7', 't8', 't1:arg12', 't1:arg5', 't1:arg8')) \
-        + random_instr_shapes(tier, seed + 7, ['C12']) + unit_encode.layouts(tier, seed, ['C12'])
+    own = instr_shapes(tier, seed, ['C12'], only=('t5', 't6', 't4', 't7', 't8', 't1:arg12', 't1:arg5', 't1:arg8'))
+    for s in own:
+        if s.sid.startswith('t5'):
+            # numeric enumerations: a JSON definition can only spell the keys as strings
+            s.params['also_json'] = True
+    return muted + own + random_instr_shapes(tier, seed + 7, ['C12']) + unit_encode.layouts(tier, seed, ['C12'])
